@@ -722,4 +722,66 @@ def listProducts (verArg : Str) (tags : List Str) (stacks : List (List Decl)) : 
       | .ok none => .ok .badSyntax
       | .ok (some l) => .ok (.products (uniqVers l []))
 
+/-! ## a version argument at the other entry points: `findProduct(name, arg)`, `findProductFromVRO(name, version=arg)` -/
+
+def versOf (stacks : List (List Decl)) : List (List Str) := stacks.map fun st => st.map (·.ver)
+
+/-- the declared version `p` carries the tag `t` in its stack -/
+def carries (stacks : List (List Decl)) (p : Nat × Str) (t : Str) : Bool :=
+  match stacks[p.1]? with
+  | some st => (st.find? (fun d => d.ver == p.2)).any fun d => d.tags.contains t
+  | none => false
+
+/-- `_selectPreferredProduct(products, preferredTags)`: the first preferred tag that selects something — `latest` selects
+the latest of the products, another tag the first product (in the order given) that carries it -/
+def selectPreferred (stacks : List (List Decl)) (ms : List (Nat × Str)) : List Str → Except Err (Option (Nat × Str))
+  | [] => .ok none
+  | t :: ts =>
+    if ms.isEmpty then .ok none
+    else if t == sLatest then
+      match latest (ms.map (·.2)) with
+      | .error e => .error e
+      | .ok none => selectPreferred stacks ms ts
+      | .ok (some k) => .ok ms[k]?
+    else match ms.find? (fun p => carries stacks p t) with
+      | some p => .ok (some p)
+      | none => selectPreferred stacks ms ts
+
+/-- `Eups.findProduct(name, expr)` for a relational request: `_findPreferredProductByExpr` with the preferred tags of
+the session (`current` before `latest` by default) -/
+def findProductExpr (preferred : List Str) (expr : Str) (stacks : List (List Decl)) : Except Err (Option (Nat × Str)) :=
+  match matchesAcross expr (versOf stacks) with
+  | .error e => .error e
+  | .ok ms => selectPreferred stacks ms preferred
+
+/-- an explicit version: the first stack (path order) that declares exactly this string -/
+def exactLookup (v : Str) (i : Nat) : List (List Decl) → Option (Nat × Str)
+  | [] => none
+  | st :: rest => if st.any (fun d => d.ver == v) then some (i, v) else exactLookup v (i + 1) rest
+
+/-- how `findProductFromVRO(name, version=arg, vro=["version", "versionExpr"])` (the way `setup prod arg` resolves its
+argument) ends: refused, nothing, or a product with the VRO entry that found it (`true` = `versionExpr`) -/
+inductive Entry
+  | badSyntax
+  | nothing
+  | found (byExpr : Bool) (i : Nat) (v : Str)
+  deriving DecidableEq, Repr
+
+def requestEntry (arg : Str) (stacks : List (List Decl)) : Except Err Entry :=
+  match isLegalRelativeVersion arg with
+  | .badSyntax => .ok .badSyntax
+  | .plain =>
+    match exactLookup arg 0 stacks with
+    | some (i, v) => .ok (.found false i v)
+    | none => .ok .nothing
+  | .relational =>
+    match preferredByExpr arg (versOf stacks) with
+    | .error e => .error e
+    | .ok (some (i, v)) => .ok (.found true i v)
+    | .ok none =>
+      -- "If we failed to find a versionExpr, we can still use the explicit version"
+      match exactLookup arg 0 stacks with
+      | some (i, v) => .ok (.found true i v)
+      | none => .ok .nothing
+
 end EupsModel.VersionCmp
